@@ -218,7 +218,11 @@ func TestC07_Cache(t *testing.T) {
 // ---- server level ----------------------------------------------------------
 
 func runC07Server(c C07Case, info *kit.Info) *kit.Finding {
+	lateHistory := c.SaltSeed%3 == 0
 	rc := service.NewReplayCache(c.Cap)
+	if lateHistory {
+		rc = service.NewReplayCache(0)
+	}
 	// two services: service 1 shares key "shared" (same id, same material) with service 0
 	keys0 := []kit.KeySpec{{ID: "a", Cipher: kit.Chacha, Secret: "sa"}, {ID: "shared", Cipher: kit.AES256, Secret: "ss"}, {ID: "c", Cipher: kit.AES128, Secret: "sc"}}
 	keys1 := []kit.KeySpec{{ID: "shared", Cipher: kit.AES256, Secret: "ss"}, {ID: "d", Cipher: kit.AES192, Secret: "sd"}, {ID: "a2", Cipher: kit.Chacha, Secret: "sa"}}
@@ -227,6 +231,12 @@ func runC07Server(c C07Case, info *kit.Info) *kit.Finding {
 	for i, ks := range [][]kit.KeySpec{keys0, keys1} {
 		hs[i] = service.NewStreamHandler(service.NewShadowsocksStreamAuthenticator(kit.NewCipherList(ks), &rc, nil, nil), time.Second)
 		hs[i].SetTargetDialer(dialer)
+	}
+	if lateHistory {
+		// the history is switched on after the services were built (ReplayCache.Resize exists to change a live,
+		// shared cache): from here on it is the configured history that counts
+		rc.Resize(c.Cap)
+		info.Class("history-enabled-after-service-start")
 	}
 	m := &c07Model{cap: c.Cap}
 	type hk struct {
